@@ -16,6 +16,11 @@ Proved for ALL inputs (no size bound):
 * `unify_perm_invariant_partial`       two successful runs on permuted architecture lists give the same maps;
   `unify_perm_invariant_common`        and no order fails when every requested name is locked by name;
   `F09g_witness` / `not_UnifyPermInvariant`  the full statement is FALSE: the error outcome depends on the order;
+* `unify_meets_spec`                   the model's output passes `specCheck`, the oracle the driver runs on Go's output;
+* `unify_ok_of_mustLock`               no "unable to lock" error when every request is locked by name or provided on
+                                       every architecture by a locked package (oracle clause `mustLock`);
+* `resolvedOf_wf`, `lockOf_lockList`   the `resolved` values of `LockImageConfiguration` are well-formed; the
+                                       per-architecture lock lists one `name=version(@pin)` entry per member;
 * `installable_exact`                  building from a lock installs exactly the listed packages of the architecture;
 * relock (second half of the file; lemmas in Proofs/Lemmas/Relock.lean and RelockInv.lean):
   `constrain_locks`              after `constrain` every package *named* like a lock entry but of another version is
@@ -435,6 +440,117 @@ theorem unify_meets_spec (originals : List Text) (first : RArch) (rest : List RA
       rw [hb, foldSet_mem _ _ _ a hd ha]
       simp
     simp [hidxv, harch]
+
+/-! ### a lock must be produced when every request is locked by name or provided everywhere by a locked package -/
+
+theorem sget_setT (m : SMap (List Text)) (k k' : Text) (v : List Text) :
+    sget (setT m k v) k' = if k' = k then v else sget m k' := by
+  unfold sget
+  rw [lookupT_setT]
+  split <;> rfl
+
+theorem sget_mdel_ne (m : SMap (List Text)) {k n : Text} (h : n ≠ k) : sget (mdel m k) n = sget m n := by
+  simp [sget, lookupT_mdel_ne m h]
+
+/-- what the provided-sets of a surviving package still contain after one `stepPkg` -/
+theorem stepPkg_provided (next : RArch) (acc : Acc) (pkg p n : Text)
+    (hp : p ∈ (stepPkg next acc pkg).packages) (h1 : n ∈ sget acc.provided p) (h2 : n ∈ sget next.provided p) :
+    n ∈ sget (stepPkg next acc pkg).provided p := by
+  have hpk := (stepPkg_packages next acc pkg p).mp hp
+  unfold stepPkg
+  by_cases hc : mget acc.versions pkg = mget next.versions pkg
+  · simp only [hc, bne_self_eq_false, Bool.false_eq_true, ↓reduceIte]
+    split
+    · simp only [sget_setT]
+      split
+      · next e => subst e; exact mem_inter.mpr ⟨h1, h2⟩
+      · exact h1
+    · exact h1
+  · have hc' : (mget acc.versions pkg != mget next.versions pkg) = true := by simpa using hc
+    have hne : p ≠ pkg := fun e => hc (hpk.2 e)
+    simp only [hc', ↓reduceIte]
+    split
+    · simp only [sget_setT, hne, ↓reduceIte]
+      rw [sget_mdel_ne _ hne]; exact h1
+    · simp only
+      rw [sget_mdel_ne _ hne]; exact h1
+
+theorem foldPkg_provided (next : RArch) : ∀ (L : List Text) (acc : Acc) (p n : Text),
+    p ∈ (L.foldl (stepPkg next) acc).packages → n ∈ sget acc.provided p → n ∈ sget next.provided p →
+    n ∈ sget (L.foldl (stepPkg next) acc).provided p := by
+  intro L
+  induction L with
+  | nil => intro acc p n _ h1 _; exact h1
+  | cons pkg L ih =>
+    intro acc p n hp h1 h2
+    simp only [List.foldl_cons] at hp ⊢
+    have hp' : p ∈ (stepPkg next acc pkg).packages := (foldPkg_sublist next L _).subset hp
+    exact ih _ p n hp (stepPkg_provided next acc pkg p n hp' h1 h2) h2
+
+theorem stepArch_provided (acc : Acc) (next : RArch) (p n : Text)
+    (hp : p ∈ (stepArch acc next).packages) (h1 : n ∈ sget acc.provided p) (h2 : n ∈ sget next.provided p) :
+    n ∈ sget (stepArch acc next).provided p := by
+  unfold stepArch at hp ⊢
+  split
+  · exact h1
+  · next hns =>
+    simp only [hns, Bool.false_eq_true, ↓reduceIte] at hp
+    exact foldPkg_provided next _ _ p n hp h1 h2
+
+theorem foldArch_provided : ∀ (rest : List RArch) (acc : Acc) (p n : Text),
+    p ∈ (rest.foldl stepArch acc).packages → n ∈ sget acc.provided p → (∀ a ∈ rest, n ∈ sget a.provided p) →
+    n ∈ sget (rest.foldl stepArch acc).provided p := by
+  intro rest
+  induction rest with
+  | nil => intro acc p n _ h1 _; exact h1
+  | cons a rest ih =>
+    intro acc p n hp h1 h2
+    simp only [List.foldl_cons] at hp ⊢
+    have hsub : ∀ (r : List RArch) (ac : Acc), (r.foldl stepArch ac).packages.Sublist ac.packages := by
+      intro r
+      induction r with
+      | nil => intro ac; exact List.Sublist.refl _
+      | cons x xs ihx => intro ac; exact (ihx _).trans (stepArch_sublist ac x)
+    have hp' : p ∈ (stepArch acc a).packages := (hsub rest _).subset hp
+    exact ih _ p n hp (stepArch_provided acc a p n hp' h1 (h2 a List.mem_cons_self))
+      (fun b hb => h2 b (List.mem_cons_of_mem _ hb))
+
+/-- T `unify_ok_of_mustLock`: `unify` returns a lock — not the "unable to lock packages to a consistent version"
+error — whenever every requested name is locked under its own name or is provided, on every architecture, by a
+package that is (the Spec clause `mustLock`, evaluated by the driver whenever Go reports an error) -/
+theorem unify_ok_of_mustLock (originals : List Text) (first : RArch) (rest : List RArch)
+    (hwf : ∀ a ∈ first :: rest, WF a) (hm : mustLock originals (first :: rest) = true) :
+    ∃ b m, unify originals (first :: rest) = .ok b m := by
+  unfold unify
+  split
+  · exact ⟨_, _, rfl⟩
+  · have hmiss : missingOf originals (accOf first rest) = [] := by
+      unfold missingOf
+      simp only
+      split
+      · next he => exact List.isEmpty_iff.mp he
+      · rw [hideProvided_eq, List.filter_eq_nil_iff]
+        intro n hn
+        obtain ⟨hno, hnacc⟩ := mem_diff.mp hn
+        simp only [mustLock, List.all_eq_true, Bool.or_eq_true, List.any_eq_true, List.contains_iff_mem] at hm
+        rw [← accOf_eq_common first rest hwf] at hm
+        rcases hm n hno with h | ⟨p, hp, hall⟩
+        · exact absurd h hnacc
+        · have hin : n ∈ sget (accOf first rest).provided p :=
+            foldArch_provided rest ⟨first.packages, first.versions, first.provided⟩ p n hp
+              (hall first List.mem_cons_self) (fun a ha => hall a (List.mem_cons_of_mem _ ha))
+          -- the set read by `sget` is an entry of the association list
+          have : ∃ e ∈ (accOf first rest).provided, e.2.contains n = true := by
+            unfold sget lookupT at hin
+            cases hf : List.find? (fun e => decide (e.1 = p)) (accOf first rest).provided with
+            | none => rw [hf] at hin; simp at hin
+            | some e =>
+              rw [hf] at hin
+              exact ⟨e, List.mem_of_find?_eq_some hf, by simpa using hin⟩
+          simp only [Bool.not_eq_true', Bool.not_eq_false, List.any_eq_true]
+          exact this
+    simp only [hmiss, List.isEmpty_nil, Bool.not_true, Bool.false_eq_true, ↓reduceIte]
+    exact ⟨_, _, rfl⟩
 
 /-- the full statement: the outcome of `unify` does not depend on the order of the architectures (the order of
 `inputs` is the iteration order of a Go map in `LockImageConfiguration`).  FALSE today, see `F09g_witness`. -/
